@@ -83,9 +83,9 @@ FLOORS = {
 }
 HOOK_FLOORS = {
     "quick": {"registry_get_mixed_case": 26, "idempotence_checked": 1000,
-              "locale_restored": 100},
+              "locale_restored": 100, "cross_talk_strings": 100},
     "thorough": {"registry_get_mixed_case": 26, "idempotence_checked": 100000,
-                 "locale_restored": 1000},
+                 "locale_restored": 1000, "cross_talk_strings": 100},
 }
 
 # (alphabet, quick bound, thorough bound)
@@ -759,6 +759,28 @@ def random_string(rng, name, pool):
 # ---------------------------------------------------------------------------
 
 
+def cross_pool():
+    """Strings that at least one datatype accepts (exemplars), in their
+    case variants: what a converter may wrongly remember for another."""
+    out = []
+    seen = set()
+    for n in NAMES:
+        if n in SLOW_TYPES:
+            continue
+        for e in _EXEMPLARS[n]:
+            for v in (e, e.lower(), e.upper(), e.swapcase()):
+                if v not in seen:
+                    seen.add(v)
+                    out.append(v)
+    for n in ("5m", "5M", "3kb", "3KB", "1d", "1D", "10s", "2g", "2GB", "1h",
+              "0", "1", "80", "on", "ON", "no", "a", "A", "a.b", ".a", "::1",
+              "1.2.3.4", "Host:80", "[::1]:80", ":80", "localhost"):
+        if n not in seen:
+            seen.add(n)
+            out.append(n)
+    return out
+
+
 def run_shard(ctx):
     env = Env(ctx)
     res = ctx.res
@@ -791,6 +813,22 @@ def run_shard(ctx):
                 check_one(env, name, random_string(rng, name, pool),
                           "random")
                 res.count("random_strings")
+        # (d) cross-talk: the same string handed to every datatype one
+        # after the other in one process (shuffled order, twice), so that
+        # state shared between converters - a memo keyed by the text only,
+        # a class-level cache - shows as a disagreement with the reference
+        cross = cross_pool()
+        for ci, s in enumerate(cross):
+            if not ctx.mine(ci):
+                continue
+            rng = ctx_free_rng(ctx, "cross", ci)
+            for _ in range(2):
+                order = [n for n in NAMES if n not in SLOW_TYPES]
+                rng.shuffle(order)
+                for name in order:
+                    check_one(env, name, s, "cross")
+                    res.count("cross_talk_calls")
+            res.hook("cross_talk_strings")
     finally:
         env.locale.setlocale(env.locale.LC_ALL, prev_locale)
     res.info["bounds"] = {
